@@ -12,6 +12,8 @@ key type, every `code` with `keq a b → code a = code b` (collisions arbitrary)
 import ZygoVerif.Model.Hash
 import ZygoVerif.Model.HashKey
 import ZygoVerif.Model.LegacyHash
+import ZygoVerif.Model.RangeBind
+import ZygoVerif.Model.LegacyRangeBind
 import ZygoVerif.Spec.OrderedMap
 import ZygoVerif.Proofs.HashText
 namespace ZygoVerif.Hash
@@ -202,5 +204,82 @@ theorem legacy_array_key_counterexample :
 example : run od sh Hash.empty
       ([.hset (.plain 1) 7, .hset (.plain 2) 8, .hdel (.plain 1), .hdel (.plain 1), .hset (.plain 1) 9, .keys, .len] : List O)
       = [.ok, .ok, .ok, .ok, .ok, .keys [2, 1], .num 2] := by decide
+
+/-! ### the defining range loop `for k, v := range h` (Model/RangeBind; repo fix C14-03)
+
+Not an operation of the hash: the loop reads the hash through `__rangeLen`/`__rangePair` (the
+`range` observation above, which `refines` covers) and binds `k`, `v` with one `mdef` per
+iteration in the loop's scope. -/
+
+/-- **Full statement** for the defining form (FALSE, recorded finding `… ranged`; see
+`defining_range_known_counterexample`): the body sees every pair. -/
+def DefiningRangePresentsAll : Prop :=
+  ∀ ps : List (Key × Int), definingRange ps = some ps
+
+/-- all keys of the pairs have the kind of `c` -/
+def sameKind (c : Key) (ps : List (Key × Int)) : Prop := ∀ e ∈ ps, e.1.kind = c.kind
+
+theorem definingRangeFrom_same (c : Key) (ps : List (Key × Int)) (h : sameKind c ps) :
+    definingRangeFrom c ps = some ps := by
+  induction ps generalizing c with
+  | nil => rfl
+  | cons e rest ih =>
+    obtain ⟨k, v⟩ := e
+    have hk : k.kind = c.kind := h (k, v) (by simp)
+    have hr : sameKind k rest := fun e he => (h e (by simp [he])).trans hk.symm
+    simp [definingRangeFrom, hk, ih k hr]
+
+/-- **`defining_range_partial`** — the proved part: when the keys the loop meets all have one
+type (the values are integers on this channel), the defining form presents exactly the pairs
+of `range` — by `refines` the live keys once each, in first-insertion order, with their latest
+values. Missing from the full statement: hashes whose keys have different types. -/
+theorem defining_range_partial (k : Key) (v : Int) (rest : List (Key × Int)) (h : sameKind k rest) :
+    definingRange ((k, v) :: rest) = some ((k, v) :: rest) := by
+  simp [definingRange, definingRangeFrom_same k rest h]
+
+example : sameKind (.int 5) [(.int 6, 2), (.int 7, 3)] := by
+  intro e he; simp at he; rcases he with rfl | rfl <;> rfl
+
+/-- … and when it does not present them it SAYS so (fix C14-03): the answer is the whole list or
+an error, never a list that differs from what the hash holds. -/
+theorem defining_range_never_wrong (ps l : List (Key × Int)) (h : definingRange ps = some l) : l = ps := by
+  have from_ : ∀ (c : Key) (ps l : List (Key × Int)), definingRangeFrom c ps = some l → l = ps := by
+    intro c ps
+    induction ps generalizing c with
+    | nil => intro l h; simpa [definingRangeFrom] using h.symm
+    | cons e rest ih =>
+      intro l h
+      obtain ⟨k, v⟩ := e
+      unfold definingRangeFrom at h
+      split at h
+      · cases hr : definingRangeFrom k rest with
+        | none => simp [hr] at h
+        | some l' => simp [hr] at h; rw [← h, ih k l' hr]
+      · cases h
+  cases ps with
+  | nil => simpa [definingRange] using h.symm
+  | cons e rest =>
+    obtain ⟨k, v⟩ := e
+    cases hr : definingRangeFrom k rest with
+    | none => simp [definingRange, hr] at h
+    | some l' => simp [definingRange, hr] at h; rw [← h, from_ k rest l' hr]
+
+example : definingRange [(.int 5, 1), (.int 6, 2)] = some [(.int 5, 1), (.int 6, 2)] := by decide
+
+/-- the recorded finding on the CURRENT model: over `(hash 5 1 "ab" 2)` the defining loop stops
+with an error at the second key (a name bound to an int64 cannot be re-bound to a string in the
+same scope); the full statement fails. -/
+theorem defining_range_known_counterexample :
+    definingRange [(.int 5, 1), (.str "ab", 2)] = none ∧ ¬ DefiningRangePresentsAll := by
+  refine ⟨by decide, fun h => ?_⟩
+  have := h [(.int 5, 1), (.str "ab", 2)]
+  revert this; decide
+
+/-- before fix C14-03 the error was swallowed and the body saw the FIRST key again, silently:
+`[[5 1] [5 2]]` for `(hash 5 1 "ab" 2)`, and a later key of the first type resumed -/
+theorem defining_range_counterexample :
+    Legacy.Hash.definingRange [(.int 5, 1), (.str "ab", 2)] = [(.int 5, 1), (.int 5, 2)] ∧
+    Legacy.Hash.definingRange [(.int 5, 1), (.str "ab", 2), (.int 7, 3)] = [(.int 5, 1), (.int 5, 2), (.int 7, 3)] := by
+  decide
 
 end ZygoVerif.Hash
